@@ -1932,10 +1932,10 @@ func (r *Raft) applyLoop() {
 			}
 
 			r.lastApplied++
-			if entry.EntryType == OperationEntry {
-				// Anyone waiting for the operation to be applied may continue.
-				r.applyCond.Broadcast()
-			}
+			// Anyone waiting for this index to be applied may continue (an InstallSnapshot
+			// that kept the log waits for its last included index, whatever type of entry
+			// that is).
+			r.applyCond.Broadcast()
 			if r.fsm.NeedSnapshot(r.log.Size()) {
 				r.snapshotCond.Signal()
 			}
